@@ -208,11 +208,11 @@ func WireValue(r *mon.Rand, depth int, allowTags bool) *Node {
 	case 4:
 		switch r.Intn(3) {
 		case 0:
-			return refcbor.NFloat16Bits(mon.Pick(r, uint16(0x3c00), uint16(0x7bff), uint16(0x0000), uint16(0xc000), uint16(0x7c00)))
+			return refcbor.NFloat16Bits(mon.Pick(r, uint16(0x3c00), uint16(0x7bff), uint16(0x0000), uint16(0xc000), uint16(0x7c00), uint16(0x7e00), uint16(0xfe00)))
 		case 1:
 			return refcbor.NFloat32(mon.Pick(r, float32(1.5), float32(-3.25e10), float32(0)))
 		}
-		return refcbor.NFloat64(mon.Pick(r, 1.1, -2.5e300, 0.0, math.Inf(1)))
+		return refcbor.NFloat64(mon.Pick(r, 1.1, -2.5e300, 0.0, math.Inf(1), math.NaN()))
 	case 5, 6:
 		return refcbor.NTstr(TextValue(r))
 	case 7, 8:
@@ -347,7 +347,20 @@ func WireHeader(r *mon.Rand, o WireHeaderOpts) (*Node, int64) {
 			}
 			put(refcbor.NInt(15), refcbor.NMap(refcbor.NInt(1), refcbor.NTstr("iss"), refcbor.NInt(4), refcbor.Clone(iat), refcbor.NInt(6), iat))
 		case 5:
-			put(refcbor.NInt(33), refcbor.NBstr(BytesValue(r)))
+			// the RFC 9360 certificate parameters in every shape their CDDL allows: x5chain / x5bag as one
+			// certificate or a list, x5t as [hash algorithm (int or text), hash value], x5u as text
+			switch r.Intn(5) {
+			case 0:
+				put(refcbor.NInt(33), refcbor.NBstr(BytesValue(r)))
+			case 1:
+				put(refcbor.NInt(mon.Pick(r, int64(33), int64(32))), refcbor.NArr(refcbor.NBstr(BytesValue(r)), refcbor.NBstr(BytesValue(r))))
+			case 2:
+				put(refcbor.NInt(34), refcbor.NArr(refcbor.NInt(-16), refcbor.NBstr(r.Bytes(32))))
+			case 3:
+				put(refcbor.NInt(34), refcbor.NArr(refcbor.NTstr("sha-256"), refcbor.NBstr(r.Bytes(32))))
+			default:
+				put(refcbor.NInt(35), refcbor.NTstr("https://example.com/cert.pem"))
+			}
 		case 6:
 			if !o.Protected {
 				put(refcbor.NInt(mon.Pick(r, int64(9), int64(12))), refcbor.NBstr(BytesValue(r)))
